@@ -5,7 +5,7 @@
 (* sequences, every truncation, hostile declared lengths, arbitrary bytes.  *)
 (* No history variable (the schedule is not part of the state).             *)
 EXTENDS Reader, TLC
-CONSTANTS Async, MaxChunk
+CONSTANTS Async, MaxChunk, Rich      \* Rich: additionally streams with a 300-byte message (length field with a non-zero high byte)
 M1 == <<32, 1, 0, 6, 7, 7>>              \* 6-byte message (no extended header; the reader only looks at the length field)
 M2 == <<32, 2, 0, 4>>                    \* minimal message: just the standard header
 M3 == <<32, 3, 0, 9, 1, 2, 3, 4, 5>>
@@ -15,10 +15,13 @@ Whole(sh) == IF sh THEN SHdr \o M1 \o SHdr \o M2 \o SHdr \o M3 ELSE M1 \o M2 \o 
 Family(sh) ==  {SubSeq(Whole(sh), 1, c) : c \in 0..Len(Whole(sh))}                                   \* every truncation
           \cup {(IF sh THEN SHdr ELSE <<>>) \o M1 \o (IF sh THEN SHdr ELSE <<>>) \o Hostile(n) : n \in 0..3}
           \cup {<<255, 255, 255, 255, 255>>, <<0, 0, 0, 0>>, <<1, 2, 3>>}
+Long == <<32, 5, 1, 44>> \o [i \in 1..296 |-> i % 251]            \* LEN = 0x012C = 300
+WholeRich(shh) == IF shh THEN SHdr \o M2 \o SHdr \o Long \o SHdr \o M1 ELSE M2 \o Long \o M1
+FamilyRich(shh) == {SubSeq(WholeRich(shh), 1, c) : c \in {k \in 0..Len(WholeRich(shh)) : k % 7 = 0 \/ k < 30 \/ k > Len(WholeRich(shh)) - 30}}
 VARIABLES stream, sh, s
 vars == <<stream, sh, s>>
-Init == sh \in BOOLEAN /\ stream \in Family(sh) /\ s = Init0
-DoFill == Wants(s, sh) /\ s.fed < Len(stream) /\ \E c \in 1..MaxChunk : s.fed + c <= Len(stream) /\ s' = Fill(s, c)
+Init == sh \in BOOLEAN /\ stream \in (Family(sh) \cup (IF Rich THEN FamilyRich(sh) ELSE {})) /\ s = Init0
+DoFill == Wants(s, sh) /\ s.fed < Len(stream) /\ \E c \in (1..MaxChunk) \cup {Len(stream) - s.fed} : s.fed + c <= Len(stream) /\ s' = Fill(s, c)
 Retry == Wants(s, sh) /\ s' = s                      \* ErrorKind::Interrupted (blocking) resp. Poll::Pending (async): nothing changes
 DoEof == Wants(s, sh) /\ s.fed = Len(stream) /\ s' = SrcEof(s)
 DoHdr == HdrEnabled(s, sh) /\ s' = HdrDone(stream, s, sh)
